@@ -123,7 +123,57 @@ class Harness:
         _kill_pid(box.get('pid'))
         return rec
 
+    def _restart_chain(self, case):
+        """persistent stateful worker: work, end (wait or target exception), restart() WITHOUT touching result/error/has_error
+        in between, and look at the state the new incarnation starts from; repeated case['restart_chain'] times"""
+        from vf import targets as T
+        self.case_no += 1
+        kind = case['kind']
+        cdir = os.path.join(self.dir, 'c%d' % self.case_no)
+        os.makedirs(cdir)
+        mpath = os.path.join(cdir, 'marker')
+        self._write_plan({})
+        kw = {'init_state': 0}
+        if kind == 'remote':
+            kw['host'] = self.get_server().addr
+        target = T.p_item_raise3 if case.get('ending') == 'exc' else T.p_item
+        w = T.CLASSES[(kind, True)](target, args=[mpath], **kw)
+        seen = []
+        try:
+            for inc in range(case.get('restart_chain', 2)):
+                items = 3 if case.get('ending') == 'exc' else 2
+                for k in range(1, items + 1):
+                    try:
+                        w.enqueue(k=k)
+                    except Exception:  # noqa
+                        break
+                if not w.wait(timeout=10):
+                    seen.append('notdead')
+                    break
+                us = [m for m in _marks(mpath) if m.startswith('us_post')]
+                expected = int(us[-1].split()[1]) if us else 0
+                w.restart(timeout=5)
+                v = w.user_state
+                seen.append('last' if v == expected else 'init' if v == 0 else 'other')
+        except BaseException as e:  # noqa
+            seen.append('raised')
+        finally:
+            pid = w.pid if kind != 'thread' else None
+            try:
+                w.terminate(timeout=1, force=(kind != 'thread'))
+            except BaseException:  # noqa
+                pass
+            if pid and pid != os.getpid():
+                _kill_pid(pid)
+        obs = _hung_obs()
+        obs.update(dead_observed='F', term_ret='na', restart_from=('last' if seen and all(x == 'last' for x in seen) else (seen and [x for x in seen if x != 'last'][0]) or 'na'))
+        rec = {'scn': _scn(dict(case, persistent=True), None), 'obs': obs, 'events_total': 0, 'events': [], 'where': None}
+        rec['restart_seen'] = seen
+        return rec
+
     def _run_case(self, case):
+        if case.get('restart_chain'):
+            return self._restart_chain(case)
         from pyworkers.worker import WorkerTerminatedError
         from vf import targets as T
         import vfagent
@@ -241,6 +291,16 @@ class Harness:
                 term_ret = 'raised:' + type(e).__name__
             if st is not None:
                 st.go.set()
+        linger = 'na'
+        if case.get('ending') == 'linger':
+            try:
+                r1 = w.wait(timeout=1.0)
+                a1 = w.is_alive()
+                u1 = _us(w, case)
+                linger = ('init' if u1 == 'init' else 'changed') if (r1 is False and a1 is True) else 'na'
+            except BaseException as e:  # noqa
+                linger = 'na'
+        obs['linger'] = linger
         # let it end
         dead = False
         polled = case.get('observe') == 'poll'
@@ -295,6 +355,7 @@ class Harness:
         obs['fin_enter'] = 'T' if 'fin_enter' in marks else 'F'
         obs['us_end'] = _us_end(w, marks, case)
         obs['setter'] = _setter(w)
+        obs['restart_from'] = 'na'
         if consumer is not None:
             obs['stream'] = consumer.finish(w)
         else:
@@ -571,7 +632,7 @@ def _stream(w, items):
 
 def _hung_obs():
     return {'dead_observed': 'hung', 'reads': [], 'term_ret': 'hung', 'us_alive': 'na', 'enq_raised': 'None',
-            'fin_done': 'F', 'fin_enter': 'F', 'us_end': 'na', 'setter': 'na', 'os_alive': 'na',
+            'fin_done': 'F', 'fin_enter': 'F', 'us_end': 'na', 'setter': 'na', 'os_alive': 'na', 'linger': 'na', 'restart_from': 'na',
             'stream': {'got': [], 'end': 'na', 'again': 'na'}}
 
 
@@ -583,7 +644,7 @@ def _scn(case, where, marks=(), ev=None):
          'target_started': 'T' if any(m == 'start' or m.endswith(' start') for m in marks) else 'F',
          'target_finished': 'T' if any(m in ('ret', 'raise') for m in marks) else 'F',
          'in_finally': 'F', 'in_try': 'F', 'in_work': 'F', 'region': 'none', 'has_finally': 'T' if (not case.get('persistent') and case.get('ending') in ('ret', 'exc', 'slowfin')) else 'F'}
-    s['ending'] = {'slow': 'ret', 'slowfin': 'ret', 'unreb2': 'unreb'}.get(s['ending'], s['ending'])
+    s['ending'] = {'slow': 'ret', 'slowfin': 'ret', 'linger': 'ret', 'unreb2': 'unreb'}.get(s['ending'], s['ending'])
     if where:
         s['landed'] = 'T'
         s['file'], s['func'], s['line'] = where.get('file', 'none'), where.get('func', 'none'), where.get('line', 0)
